@@ -39,7 +39,6 @@ def process_state():
     """process-wide state a solver could touch"""
     import decimal
     import locale
-    import warnings
     import numpy as np
     return {
         "np.geterr": dict(np.geterr()),
@@ -50,8 +49,6 @@ def process_state():
         "locale": repr(locale.getlocale()),
         "cwd": os.getcwd(),
         "environ": hash(tuple(sorted(os.environ.items()))),
-        "warnings.filters": len(warnings.filters),
-        "float_repr_style": sys.float_repr_style,
     }
 
 
@@ -69,11 +66,11 @@ def main():
         if pid == 0:
             os.close(r)
             try:
-                out = json.dumps(stock_outcome(text))
+                out = json.dumps(stock_outcome(text))     # an exception of the SOLVER is the outcome "err"
+                os.write(w, out.encode())
+                os._exit(0)
             except BaseException:
-                out = json.dumps("err")
-            os.write(w, out.encode())
-            os._exit(0)
+                os._exit(1)                               # trouble of the child itself: no baseline (null)
         os.close(w)
         data = b""
         while True:
@@ -82,8 +79,9 @@ def main():
                 break
             data += chunk
         os.close(r)
-        os.waitpid(pid, 0)
-        sys.stdout.write((data.decode() or json.dumps("err")) + "\n")
+        _, status = os.waitpid(pid, 0)
+        ok = os.WIFEXITED(status) and os.WEXITSTATUS(status) == 0 and data
+        sys.stdout.write((data.decode() if ok else "null") + "\n")
         sys.stdout.flush()
 
 
